@@ -100,6 +100,14 @@ def cells(tier):
                                             workers=W[:1],
                                             requirements=on([{"name": "t0"}, {"name": "t1"}, {"name": "t2"}]),
                                             indicators=[{"id": "i", "kind": "ResourceIdle", "resource": "w0"}]), 5))
+    # a zero-length busy interval (milestone) among the worker's tasks, in particular first and at the origin, where
+    # the "only scheduled intervals" guards of the encoding sit on their boundary
+    out.append(("ResourceIdle.zf", fam.base(4, [fam.zr("t0"), fam.fx("t1", 1)], workers=W[:1],
+                                            requirements=on([{"name": "t0"}, {"name": "t1"}]),
+                                            indicators=[{"id": "i", "kind": "ResourceIdle", "resource": "w0"}]), 4))
+    out.append(("ResourceIdle.zfv", fam.base(4, [fam.zr("t0"), fam.vr("t1", 1, 2)], workers=W[:1],
+                                             requirements=on([{"name": "t0"}, {"name": "t1"}]),
+                                             indicators=[{"id": "i", "kind": "ResourceIdle", "resource": "w0"}]), 4))
     # due-date indicators
     for kind in ("Tardiness", "Earliness", "NbTardy", "MaxLateness"):
         for lst in (None, ["t0", "t1"]):
